@@ -10,18 +10,52 @@ URG, NOR = 0, 1
 
 
 class Err(Exception):
-    pass
+    """application exception; equal when the arguments are equal (the kernel hands every waiter its own copy, and two
+    runs of one program create two objects)"""
+
+    def __eq__(self, o):
+        return type(o) is type(self) and o.args == self.args
+
+    def __ne__(self, o):
+        return not self.__eq__(o)
+
+    def __hash__(self):
+        return hash((type(self).__name__, self.args))
 
 
 class Abort(BaseException):
     """an application exception that is not an Exception subclass (like KeyboardInterrupt-style aborts)"""
 
 
+class AnyEq:
+    """a payload whose == is liberal towards everything that is not another payload (like unittest.mock.ANY, or an array
+    type with element-wise ==): the kernel must never decide anything by comparing a payload"""
+
+    def __init__(self, tag):
+        self.tag = tag
+
+    def __eq__(self, o):
+        return o.tag == self.tag if isinstance(o, AnyEq) else True
+
+    def __ne__(self, o):
+        return o.tag != self.tag if isinstance(o, AnyEq) else False
+
+    def __hash__(self):
+        return hash(("AnyEq", self.tag))
+
+    def __bool__(self):
+        return True
+
+    def __repr__(self):
+        return "AnyEq(%r)" % (self.tag,)
+
+
 class K:
     """One execution of one lazily generated program."""
 
     def __init__(self, ch, ops, depth, nproc=2, maxproc=4, env=None, nevents=2, stop_at=None, reaction=True, probe_procs=True,
-                 falsy_causes=False):
+                 falsy_causes=False, liberal_values=False):
+        self.val = (lambda x: AnyEq(x)) if liberal_values else (lambda x: x)
         self.ch = ch
         self.ops = ops
         self.depth = depth
@@ -90,8 +124,9 @@ class K:
     def new_timeout(self, d):
         self.nid += 1
         lab = ("to", self.nid)
-        self.outcome[lab] = (True, ("tv", self.nid))
-        t = self.env.timeout(d, value=("tv", self.nid))
+        v = self.val(("tv", self.nid))
+        self.outcome[lab] = (True, v)
+        t = self.env.timeout(d, value=v)
         self.trigger(lab, self.env.now + d, NOR)
         self.reg[lab] = ["probe"]
         t.callbacks.append(self._probe(lab))
@@ -154,8 +189,9 @@ class K:
             op = self.next_op(pid)
             kind = op if not isinstance(op, tuple) else op[0]
             if kind == "ret":
-                self.finish(pid, True, ("rv", pid))
-                return ("rv", pid)
+                v = self.val(("rv", pid))
+                self.finish(pid, True, v)
+                return v
             if kind == "raise":
                 self.finish(pid, False, (("xv", pid),))
                 raise Err(("xv", pid))
@@ -188,15 +224,21 @@ class K:
             elif kind == "W":
                 e = op[1]
                 yield from self.wait(pid, self.events[e], ("ev", e), op[2])
-            elif kind in ("S", "F"):
+            elif kind in ("S", "F", "SX"):
                 e = op[1]
                 lab = ("ev", e)
                 ev = self.events[e]
                 self.nid += 1
                 try:
                     if kind == "S":
-                        ev.succeed(("sv", e, self.nid))
-                        new = (True, ("sv", e, self.nid))
+                        v = self.val(("sv", e, self.nid))
+                        ev.succeed(v)
+                        new = (True, v)
+                    elif kind == "SX":
+                        # an exception OBJECT as the value of a successful event (a result being handed on, not raised)
+                        v = Err(("sx", e, self.nid))
+                        ev.succeed(v)
+                        new = (True, v)
                     else:
                         ev.fail(Err(("fv", e, self.nid)))
                         new = (False, (("fv", e, self.nid),))
